@@ -15,45 +15,82 @@ def Representable (ops : List Op) : Prop :=
 /-- one instruction: decoding what was encoded returns the instruction and leaves the rest -/
 theorem C12_decodeOp_encodeOp (op : Op) (enc rest : Bytes) (h : encodeOp op = some enc) :
     decodeOp (enc ++ rest) = some (op, rest) := by
-  sorry
+  exact decodeOp_encodeOp op enc rest h
 
 /-- one instruction: whatever decodes is the canonical encoding of what it decodes to -/
 theorem C12_encodeOp_decodeOp (bs rest : Bytes) (op : Op) (h : decodeOp bs = some (op, rest)) :
     ∃ enc, encodeOp op = some enc ∧ bs = enc ++ rest := by
-  sorry
+  exact encodeOp_decodeOp bs rest op h
 
 /-- decoding any byte string either fails or yields a program that re-encodes to exactly
     the same bytes (so the whole input was consumed and no two byte strings decode alike). -/
 theorem C12_decode_encode (bs : Bytes) (ops : List Op) (h : decodeAll bs = some ops) :
     encodeAll ops = some bs := by
-  sorry
+  exact encodeAll_of_decodeFuel bs.length bs ops h
 
 /-- encoding any program that encodes at all and decoding it returns the same program -/
 theorem C12_encode_decode (ops : List Op) (bs : Bytes) (h : encodeAll ops = some bs) :
     decodeAll bs = some ops := by
-  sorry
+  exact decodeFuel_of_encodeAll ops bs h bs.length (encodeAll_length h)
 
 /-- a program encodes iff it is representable -/
 theorem C12_encodable_iff (ops : List Op) : (encodeAll ops).isSome ↔ Representable ops := by
-  sorry
+  induction ops with
+  | nil => simp [encodeAll, Representable]
+  | cons op ops ih =>
+    have h1 : (encodeAll (op :: ops)).isSome ↔ (encodeOp op).isSome ∧ (encodeAll ops).isSome := by
+      rw [encodeAll_cons]
+      cases encodeOp op <;> cases encodeAll ops <;> simp
+    have h2 : Representable (op :: ops) ↔
+        (∀ bs, op = Op.pushb bs → bs.length ≤ 255) ∧ Representable ops := by
+      unfold Representable
+      constructor
+      · intro h
+        exact ⟨fun bs e => h bs (by simp [e]), fun bs hm => h bs (List.mem_cons_of_mem _ hm)⟩
+      · rintro ⟨ha, hb⟩ bs hm
+        rcases List.mem_cons.mp hm with e | hm
+        · exact ha bs e.symm
+        · exact hb bs hm
+    rw [h1, h2, ih, encodeOp_isSome_iff]
 
 /-- every representable program round-trips -/
 theorem C12_roundtrip (ops : List Op) (h : Representable ops) :
     ∃ bs, encodeAll ops = some bs ∧ decodeAll bs = some ops := by
-  sorry
+  have hs := (C12_encodable_iff ops).mpr h
+  obtain ⟨bs, hb⟩ := Option.isSome_iff_exists.mp hs
+  exact ⟨bs, hb, C12_encode_decode ops bs hb⟩
 
 /-- a byte string names at most one program and a program at most one byte string -/
 theorem C12_injective (b₁ b₂ : Bytes) (ops : List Op)
     (h₁ : decodeAll b₁ = some ops) (h₂ : decodeAll b₂ = some ops) : b₁ = b₂ := by
-  sorry
+  have e₁ := C12_decode_encode b₁ ops h₁
+  have e₂ := C12_decode_encode b₂ ops h₂
+  rw [e₁] at e₂
+  exact Option.some.inj e₂
 
 /-- decoded programs are always representable (`to_bytes` cannot panic on them) -/
 theorem C12_decoded_representable (bs : Bytes) (ops : List Op) (h : decodeAll bs = some ops) :
     Representable ops := by
-  sorry
+  apply (C12_encodable_iff ops).mp
+  rw [C12_decode_encode bs ops h]; rfl
 
 /-- non-vacuity: a concrete program with every argument shape round-trips -/
 example : decodeAll [0xb0, 0, 2, 0, 1, 0xf2, 1, 7, 0xf0, 2, 9, 9, 0x15, 3] =
-    some [.loop 2 1, .pushic 7, .pushb [9, 9], .exp 3] := by sorry
+    some [.loop 2 1, .pushic 7, .pushb [9, 9], .exp 3] := by
+  have h7 : sigLen 7 = 1 := by rw [sigLen_pos 7 (by decide)]; simp [sigLen_zero]
+  apply C12_encode_decode
+  simp [encodeAll, encodeOp, u16BE, toBE, h7, Mel.Gen.encLoop, Mel.Gen.encPushIC, Mel.Gen.encPushB,
+    Mel.Gen.encExp, Mel.Gen.OPCODE_LOOP, Mel.Gen.OPCODE_PUSHIC, Mel.Gen.OPCODE_PUSHB,
+    Mel.Gen.OPCODE_EXP]
 
 end Mel.VM
+
+#print axioms Mel.VM.C12_decodeOp_encodeOp
+#print axioms Mel.VM.C12_encodeOp_decodeOp
+#print axioms Mel.VM.C12_decode_encode
+#print axioms Mel.VM.C12_encode_decode
+#print axioms Mel.VM.C12_encodable_iff
+#print axioms Mel.VM.C12_roundtrip
+#print axioms Mel.VM.C12_injective
+#print axioms Mel.VM.C12_decoded_representable
+
